@@ -40,7 +40,14 @@ func init() {
 			}
 			cfg.Comps = cs
 		}
-		j := harness.Job{Cfg: cfg, Calls: [][]harness.Answer{ans}, Want: harness.Want{Obs: 2, Screen: 2}}
+		if w := os.Getenv("VERIF_DBG_W"); w != "" {
+			fmt.Sscan(w, &cfg.W)
+		}
+		if p := os.Getenv("VERIF_DBG_PROMPT"); p != "" {
+			cfg.Prompt = p
+		}
+		cfg.Multiline = os.Getenv("VERIF_DBG_MULTILINE")
+		j := harness.Job{Cfg: cfg, Calls: [][]harness.Answer{ans}, Want: harness.Want{Obs: 2, Screen: 2, ScreenCheck: true}}
 		t := c.Pool.RunOne(&j)
 		call := LastCall(t)
 		for i, w := range call.Waits {
@@ -50,6 +57,9 @@ func init() {
 				k = fmt.Sprintf("%q", ans[i].Bytes)
 			}
 			fmt.Printf("wait %d [%s] line=%q pos=%d mark=%d sel=%v[%d,%d] main=%s local=%s iter=%v kill=%q hint=%q rec=%v  -> %s\n", i, o.Kind, o.Line, o.Pos, o.Mark, o.SelOn, o.SelB, o.SelE, o.Main, o.Local, o.IterSet, o.Kill, o.Hint, o.MacroRec, k)
+			if w.ScreenVerdict != "" {
+				fmt.Printf("      SCREEN: %s\n", w.ScreenVerdict)
+			}
 			if os.Getenv("VERIF_DBG_SCREEN") != "" && w.Screen != nil {
 				for y, l := range w.Screen.Lines {
 					fmt.Printf("      |%s|%d\n", l, y)
